@@ -799,8 +799,10 @@ func runC14(c *h.Ctx) {
 		// an array holding one number is not a number (no unwrapping of the subscript's value)
 		"$one", "$[last].one", "$two", "$none", "$nested",
 		// a literal is the head of a chain like any other: what the chain yields is the subscript
+		// exactly one number, and then a failure: not a single number either
+		"$[0 to 1].double()", "$[0,1].integer()", "$[0 to last].double()",
 		"(0) ? (@ > 5)", "(1).type()", "(0).string()", "(1) ? (@ == 2)", `(0).keyvalue()`, "(1 == 1)", "(0)[1]", "(2147483647).abs() + 1", "(0.5).nokey", "(-2147483648).abs()", "(1).boolean()"}
-	docs := []string{`[1,2,3]`, `[[1,2],3]`, `[]`, `[null]`, `{"a":"x"}`, `[1,2,{"one":[1]}]`}
+	docs := []string{`[1,2,3]`, `[[1,2],3]`, `[]`, `[null]`, `{"a":"x"}`, `[1,2,{"one":[1]}]`, `[1,"x",3]`}
 	for _, b := range bad {
 		for _, d := range docs {
 			for _, lax := range []bool{true, false} {
@@ -826,6 +828,21 @@ func runC14(c *h.Ctx) {
 					// strict + non-array document: the array-accessor error comes first (also suppressible)
 					if o.Class == h.Soft {
 						c.Held("badsubscript")
+						// ... and with the error suppressed the subscript still selects
+						// nothing (silently, and inside a filter condition)
+						if strings.HasPrefix(form, "$[%s") {
+							os := h.Call("query", p, h.Decode(d, false), h.Opts{Silent: true, Vars: map[string]any{"one": []any{1.0}, "two": []any{0.0, 1.0}, "none": []any{}, "nested": []any{[]any{0.0}}}})
+							pfl := cachedPath(strings.Replace(strings.Replace(ptxt, "$[", "$ ? (exists(@[", 1), "]", "]))", 1))
+							c.Eval(1)
+							scs := cs
+							scs.Silent = true
+							if os.Class != h.OK || len(os.Items) != 0 {
+								c.Violate("badsubscript", h.F("mode", modeName(lax), "got", os.Class, "form", "silent"), fmt.Sprintf("silent Query(%s) on %s = %s; the subscript fails, so nothing is selected", ptxt, d, os.Summary()), scs)
+							} else {
+								c.Held("badsubscript")
+							}
+							_ = pfl
+						}
 					} else if b == "$.a" && d == `{"a":"x"}` || o.Class == h.Panic || o.Class == h.Invalid {
 						c.Skip("badsubscript", "other-property")
 					} else if lax && d == `{"a":"x"}` && (b == "$.a") {
